@@ -100,3 +100,45 @@ func H_safe() {
 	}
 	rt.Reach("end")
 }
+
+// H_safe_bsdiff: the same guarantee for an optimized patch, whose bsdiff series reads the old
+// file through the LRU-cached reader on top of the safekeeper. Pristine old and new contents
+// are concrete (suffix sorting), the damaged old file is fully symbolic and independent.
+// Params: ns (pristine old length), na (damaged length), ins (where two bytes are inserted), edit
+// (index of one changed byte, -1 none).
+func H_safe_bsdiff() {
+	hlib.SetCopyBuf()
+	ns, na := rt.Param("ns"), rt.Param("na")
+	O := make([]byte, ns)
+	for i := range O {
+		O[i] = byte(i*7 + 3)
+	}
+	ins := rt.Param("ins")
+	N := append(append(append([]byte{}, O[:ins]...), 200, 201), O[ins:]...)
+	if e := rt.Param("edit"); e >= 0 {
+		N[e] ^= 0x55
+	}
+	root := rt.TempDir()
+	oldB := &hlib.Build{Files: []hlib.File{{Path: "f", Data: O}}}
+	newB := &hlib.Build{Files: []hlib.File{{Path: "f", Data: N}}}
+	oldB.Write(root + "/old")
+	newB.Write(root + "/new")
+	d := hlib.Diff(root+"/old", root+"/new")
+	opt, _, err := hlib.Optimize(d.Patch, root+"/old", root+"/new", hlib.RediffOpts{ForceMapAll: true})
+	hlib.Must(err, "optimize")
+	sig := hlib.SigBytes(root + "/old")
+
+	dmg := root + "/damaged"
+	hlib.Must(os.MkdirAll(dmg, 0o755), "mkdir")
+	A := rt.Bytes("damaged", na)
+	hlib.Must(os.WriteFile(dmg+"/f", A, 0o644), "write damaged")
+	aerr := applySafe(opt, sig, dmg, root+"/out")
+	undamaged := na == ns && rt.BytesEqual(A, O)
+	if undamaged {
+		rt.Assert(aerr == nil, "an undamaged old build is never rejected (optimized patch)")
+	}
+	if aerr == nil {
+		hlib.AssertSame(hlib.Snapshot(root+"/out"), newB.Entries(), "success implies output == new (optimized patch)")
+	}
+	rt.Reach("end")
+}
